@@ -59,6 +59,7 @@ type FuncSpec struct {
 	Line        int
 	Modes       map[string]string
 	Uses        []*Clause // lemma instances assumed at entry: use lemma(args)
+	Holds       []*Clause // visible-state type invariants assumed at entry (not a caller obligation)
 }
 
 type SpecFunc struct {
@@ -103,6 +104,7 @@ type UnreachDecl struct {
 	Name     string
 	From, To []string
 	Props    []string
+	Callers  bool // "callersof" form: To[0] may only be called (statically) from the functions in From
 }
 
 type UniqueDecl struct {
@@ -122,10 +124,10 @@ type Lemma struct {
 var keywords = map[string]bool{
 	"func": true, "spec": true, "requires": true, "ensures": true, "assigns": true, "loop": true,
 	"props": true, "pure": true, "trusted": true, "invariant": true, "global": true, "lemma": true,
-	"at": true, "mode": true, "use": true, "chain": true, "unique": true, "unreachable": true, "sweep": true, "hyp": true, "concl": true, "package": true, "rec": true,
+	"at": true, "mode": true, "use": true, "chain": true, "unique": true, "unreachable": true, "holds": true, "callersof": true, "sweep": true, "hyp": true, "concl": true, "package": true, "rec": true,
 }
 
-var funcHdr = regexp.MustCompile(`^func\s*(?:\(\s*(?:\w+\s+)?\*?\s*(\w+)\s*\))?\s*([\w$]+)\s*(.*)$`)
+var funcHdr = regexp.MustCompile(`^func\s*(?:\(\s*(?:\w+\s+)?\*?\s*(\w+)\s*\))?\s*([\w$]+?(?:\$calls\([\w.$]+\))?)\s*(\(.*)$`)
 
 // loadContracts reads every zz_contracts_verif.go under the repo plus the
 // assumed contracts under /verif/contracts/assumed.
@@ -294,6 +296,24 @@ func (cs *Contracts) parseFile(path string) error {
 			cs.Chains[pkg+"."+tf[0]] = tf[1]
 			cs.Assumed = append(cs.Assumed, "acyclic parent chain "+pkg+"."+rest+" (the link is only written on freshly constructed objects)")
 			cur, curInv, curLemma = nil, nil, nil
+		case "callersof":
+			// callersof <callee> props C01 : allowed caller keys   (every static call site of callee is in one of them)
+			fs := strings.Fields(rest)
+			ud := UnreachDecl{Name: pkg + ".callersof(" + fs[0] + ")", To: []string{fs[0]}, Callers: true}
+			mode := ""
+			for _, f := range fs[1:] {
+				if f == "props" || f == ":" {
+					mode = f
+					continue
+				}
+				if mode == "props" {
+					ud.Props = append(ud.Props, f)
+				} else if mode == ":" {
+					ud.From = append(ud.From, f)
+				}
+			}
+			cs.Unreach = append(cs.Unreach, ud)
+			cur, curInv, curLemma = nil, nil, nil
 		case "unreachable":
 			// unreachable <name> props C02 from a b c : x y
 			fs := strings.Fields(rest)
@@ -338,6 +358,18 @@ func (cs *Contracts) parseFile(path string) error {
 			}
 			cs.GlobalInvs = append(cs.GlobalInvs, &GlobalInv{Pkg: pkg, Clause: &Clause{Kind: "global", Text: txt, E: e}, Checked: true})
 			cur, curInv, curLemma = nil, nil, nil
+		case "holds":
+			// holds inv(x): the type invariant of x is assumed at entry under visible-state semantics: every function
+			// that writes the fields it mentions re-establishes it before returning (writer-closure obligation), so
+			// callers do not have to prove it
+			if cur == nil {
+				return fail("holds outside func")
+			}
+			e, err := parseExpr(rest)
+			if err != nil {
+				return fail("%v", err)
+			}
+			cur.Holds = append(cur.Holds, &Clause{Kind: "holds", Text: rest, E: e, N: len(cur.Holds) + 1})
 		case "use":
 			if cur == nil {
 				return fail("use outside func")
